@@ -2730,7 +2730,7 @@ class PGPKeyring(collections_abc.Container, collections_abc.Iterable, collection
 
         # drop the now-sorted aliases into place
         for depth, pkid in enumerate(pkids):
-            self._aliases[depth][alias] = pkid
+            self._aliases[depth - len(pkids)][alias] = pkid
 
         # finally, remove any empty dicts left over
         while {} in self._aliases:  # pragma: no cover
